@@ -1,4 +1,10 @@
 import ClipVerif.Proofs.C04
+import ClipVerif.Proofs.Tree
+import ClipVerif.Proofs.PIPOp
+import ClipVerif.Model.Tree
+import ClipVerif.Model.PIPOp
+import ClipVerif.Model.Conv
+import ClipVerif.Spec.Wind
 /-
 C04 — PolyTree results are the same polygons, correctly nested.  Proved: IsHole as a function of the
 nesting level (generated from `PolyPathBase.IsHole`, with the parent walk `Level()` as a parameter):
@@ -6,7 +12,7 @@ levels alternate filled boundary / hole by construction.  Ownership correction (
 becomes whose child) is explored by the search.
 -/
 namespace C04
-open Gen
+open Gen Model
 
 theorem isHole_iff (level : Int) (h : 0 ≤ level) :
     PolyPathBase_IsHole level = true ↔ (level ≠ 0 ∧ level % 2 = 0) := by
@@ -21,5 +27,56 @@ theorem isHole_alternates (level : Int) (h : 1 ≤ level) :
 
 theorem top_level_not_hole : PolyPathBase_IsHole 1 = false ∧ PolyPathBase_IsHole 0 = false := by
   exact Proofs.C04.top_level_not_hole
+
+/-! ### Owner search of the tree builder (model `Model.Tree` of `buildTree` / `recursiveCheckOwners` /
+`checkSplitOwner`, tied by `models-corr tree`) -/
+
+/-- a record table as the sweep leaves it: indices in range, nothing placed or marked yet, owner
+    links acyclic (here: every owner has a smaller index) -/
+def FreshTable (t : Table) : Prop :=
+  (∀ i, i < t.size → t[i]!.placed = false ∧ t[i]!.mark = none ∧ t[i]!.parent = none) ∧
+  (∀ i o, i < t.size → t[i]!.owner = some o → o < i) ∧
+  (∀ i l s, i < t.size → t[i]!.splits = some l → s ∈ l → s < t.size)
+
+/-- containment is a strict partial order (true of `path1InsidePath2` on rings that do not cross) -/
+def StrictInside (g : Geo) : Prop :=
+  (∀ a, g.inside a a = false) ∧ (∀ a b c, g.inside a b = true → g.inside b c = true → g.inside a c = true)
+
+/-- every node's polygon lies inside its parent's polygon: whatever the owner hints and splits
+    lists are, a record is only ever attached below a record that has points, is itself placed,
+    and contains it -/
+theorem buildTree_parent_contains (g : Geo) (t : Table) (hf : FreshTable t) (hg : StrictInside g)
+    (i p : Nat) (hi : i < t.size) (hp : (buildTree g t)[i]!.parent = some p) :
+    g.inside i p = true ∧ (buildTree g t)[p]!.placed = true ∧ t[p]!.hasPts = true := by
+  have _ := hi
+  exact Proofs.Tree.buildTree_parent_contains g t hf.1 hf.2.1 hg.1 hg.2 i p hp
+
+/-- every record that has points gets a node, records without points get none -/
+theorem buildTree_places_exactly (g : Geo) (t : Table) (hf : FreshTable t) (hg : StrictInside g)
+    (i : Nat) (hi : i < t.size) :
+    (buildTree g t)[i]!.placed = t[i]!.hasPts := by
+  exact Proofs.Tree.buildTree_places_exactly g t hf.1 hf.2.1 hg.1 hg.2 i hi
+
+
+/-! ### The containment test on output rings (`pointInOpPolygon`, model `Model.PIPOp`, tied by `models-corr pipop`) -/
+
+/-- `pointInOpPolygon` is exact within the coordinate domain: IsOn (0) exactly on the ring, IsInside
+    (1) exactly where the winding number is odd, IsOutside (2) elsewhere — for every ring of at
+    least three vertices not contained in the horizontal line through the point -/
+theorem pointInOpPolygon_correct (pt : Point64) (ring : List Point64)
+    (hp : pt.inRange) (hr : ∀ q ∈ ring, q.inRange) (h3 : 3 ≤ ring.length)
+    (hflat : ∃ q ∈ ring, q.Y ≠ pt.Y) :
+    Model.pointInOpPolygon pt ring =
+      (if Spec.onPath (pathToI ring) ⟨(pt.X.toInt : Rat), (pt.Y.toInt : Rat)⟩ then 0
+       else if Spec.wind (pathToI ring) ⟨(pt.X.toInt : Rat), (pt.Y.toInt : Rat)⟩ % 2 ≠ 0 then 1 else 2) := by
+  exact Proofs.PIPOp.pointInOpPolygon_correct pt ring hp hr h3 hflat
+
+/-- rings of fewer than three vertices, and rings lying in the horizontal line through the point,
+    are reported IsOutside -/
+theorem pointInOpPolygon_degenerate (pt : Point64) (ring : List Point64)
+    (h : ring.length < 3 ∨ ∀ q ∈ ring, q.Y = pt.Y) :
+    Model.pointInOpPolygon pt ring = 2 := by
+  exact Proofs.PIPOp.pointInOpPolygon_degenerate pt ring h
+
 
 end C04
